@@ -355,6 +355,9 @@ class Gen:
         return D
 
     def angle(self):
+        # boundary values are legal parameters too (identity rotations, exact swaps, sign flips)
+        if self.rng.random() < 0.15:
+            return round(self.rng.choice([0.0, PI / 2, PI, -PI / 2, 2 * PI, PI / 4, -PI, 3 * PI, 4 * PI]), 9)
         return round(self.rng.uniform(-4 * PI, 4 * PI), 6)
 
     # ---------------------------------------------------------------- families
@@ -486,6 +489,8 @@ class Gen:
                     return {"do": "op", "entry": "ce", "ce": h, "op": name, "on": on}
         o = rng.choice(opts)
         th = round(rng.uniform(-2 * PI, 2 * PI), 6)
+        if rng.random() < 0.15:
+            th = round(rng.choice([0.0, PI / 4, PI / 2, PI, -PI / 2, 2 * PI, -PI]), 9)
         if o in ("CX", "CZ", "SWAP"):
             on = rng.sample(P, 2)
             spec = {"t": "X." + o}
